@@ -1177,7 +1177,13 @@ def parse_and_stack(src_paths, group_by=default_group_keys, extractor=None,
                               force,
                               warn_on_except)
 
-    for key, group in iteritems(results):
-        results[key] = stack_group(group, warn_on_except, **stack_args)
+    for key in list(results.keys()):
+        stack = stack_group(results[key], warn_on_except, **stack_args)
+        if len(stack._files_info) == 0:
+            #Every file of the group was skipped (with a warning), the result
+            #is the same as if those files had not been given at all
+            del results[key]
+        else:
+            results[key] = stack
 
     return results
